@@ -313,6 +313,9 @@ def _sigclip_check(scen):
         data[7, 7] += 40.0 * np.sign(scen['outlier'])
     if scen['nan']:
         data[4, 5] = np.nan
+    if scen.get('inf'):
+        data[6, 4] = np.inf          # non-finite but not NaN
+        data[3, 6 if not scen['badcol'] else 5] = -np.inf
     aper = (CircularAperture((5.3, 5.1), 3.2) if scen.get('aper', 'c') == 'c'
             else EllipticalAperture((4.8, 5.6), 3.6, 2.1, theta=0.7))
     sc = None if scen['sigma'] is None else SigmaClip(
@@ -418,7 +421,7 @@ def _run_sigclip(case):
     def fn(ctx):
         scen = dict(badcol=ctx.choice('badcol', [0, 1, -1]),
                     outlier=ctx.choice('outlier', [0.0, 4.0, 9.0, -6.0]),
-                    nan=ctx.flag('nan'),
+                    nan=ctx.flag('nan'), inf=ctx.flag('inf'),
                     sigma=ctx.choice('sigma', [None, 2.0, 3.0]),
                     iters=ctx.choice('iters', [1, 5]),
                     bkg=ctx.choice('bkg', [0.0, 1.5]),
